@@ -1091,13 +1091,17 @@ class ReplacingNodeVisitor(BaseNodeVisitor):
         transformer = ReplaceNodeTransformer(current_node, new_node)
         lines = self._lines()
         lines_to_remove = analysis_lib.get_line_range_for_node(current_statement, lines)
-        indent = analysis_lib.get_indentation(lines[current_statement.lineno - 1])
+        first_line = lines[current_statement.lineno - 1]
+        indent = analysis_lib.get_indentation(first_line)
         node = transformer.visit(current_statement)
         try:
             parent_lines = decompile(node, starting_indentation=indent).splitlines()
         except NotImplementedError:
             return None
-        lines_to_add = [line + "\n" for line in parent_lines]
+        # Keep the leading whitespace of the original statement (it may consist of
+        # tabs); the decompiler always indents with spaces.
+        prefix = first_line[:indent]
+        lines_to_add = [prefix + line[indent:] + "\n" for line in parent_lines]
         return Replacement(lines_to_remove, lines_to_add)
 
     def remove_node(
